@@ -758,6 +758,13 @@ func c04Inscription(pkh []byte, r *prng.R) []byte {
 	case 4:
 		s = append(append(s, 0x6a), gen.Push(r.Bytes(1+r.Intn(80)))...)
 		s = append(s, gen.Push(r.Bytes(r.Intn(4)))...)
+	case 5: // items on both sides of the direct-push / PUSHDATA1 boundary whose DATA holds the value of OP_CODESEPARATOR
+		s = append(s, 0x6a)
+		for _, l := range []int{74, 75, 76}[r.Intn(3):] {
+			d := bytes.Repeat([]byte{0xab}, l)
+			d[r.Intn(l)] = byte(r.Intn(256))
+			s = append(s, gen.Push(d)...)
+		}
 	}
 	return s
 }
